@@ -384,6 +384,8 @@ class Task:
         self.steps = 0
         self.before = set()  # queries evaluated (started) before this task first ran
         self.reentrant = False  # pre-empted inside a step, or stepped from inside another task's step
+        self.first_step_clock = None  # logical time of this task's first next()
+        self.step_clocks = []  # logical times of all its next() calls
 
 
 def query_var_ids(scenario: Dict, qd: Dict) -> set:
@@ -576,6 +578,9 @@ def execute_c03(scenario: Dict) -> Dict:
             "shares": share,
             "same_query_overlap": same_query_overlap,
             "same_query_overlap_tasks": sorted(o for o in task.overlaps if tasks[o].qi == task.qi),
+            # another evaluation of the same query object was STARTED or ADVANCED while this one was live (closing or
+            # dropping a dormant one is no disturbance: a suspended generator that is never resumed writes nothing)
+            "same_query_disturbed": any(tasks[o].qi == task.qi and any(c > (task.first_step_clock or 0) for c in tasks[o].step_clocks) for o in task.overlaps),
             "shared_node_overlap": expression_overlap,
             "reevaluation": task.qi in task.before,
             "reentrant": task.reentrant,
@@ -632,6 +637,7 @@ def execute_c03(scenario: Dict) -> Dict:
             task.diverged = True
             verdicts.append(kernel.verdict("C03.R3", f"task {task.tid} of query {task.qi} raised {end} after {n} results, isolated evaluation: {ref['end']} after {rn}", **features_for(task, end.replace("exc:", "exception:"))))
 
+    step_clock = [0]
     held_results = []
     executing = []  # tasks whose generator is currently running (a generator cannot be re-entered)
 
@@ -648,6 +654,10 @@ def execute_c03(scenario: Dict) -> Dict:
             task.before = set(evaluated_before)
             evaluated_before.add(task.qi)
         note_overlap(task)
+        step_clock[0] += 1
+        task.step_clocks.append(step_clock[0])
+        if task.first_step_clock is None:
+            task.first_step_clock = step_clock[0]
         outer_phase, outer_events, outer_hook = mon.phase, mon.step_events, mon.hook
         mon.phase = f"STEP{task.tid}"
         mon.step_events = 0
@@ -923,7 +933,7 @@ def same_class(a: Dict, b: Dict) -> bool:
     fa, fb = a["features"], b["features"]
     if a["rule"] == "C03.R3" and fa.get("failure") != fb.get("failure"):
         return False
-    keys = ("rule_query", "same_query_overlap", "shared_node_overlap", "reentrant", "overlap", "phase", "via")
+    keys = ("rule_query", "same_query_overlap", "same_query_disturbed", "shared_node_overlap", "reentrant", "overlap", "phase", "via")
     return all(fa.get(k) == fb.get(k) for k in keys)
 
 
